@@ -130,6 +130,18 @@ func genC02(r *Rand, tier string, i int) *h.Scenario {
 		}
 		sc.Post = append(sc.Post, op)
 	}
+	// the container may also be done because a render failed: late calls behave the same
+	if r.Bool(0.15) && len(sc.Bars) > 0 {
+		site := []int{h.FaultFill, h.FaultExt, h.FaultOutWrite}[r.Intn(3)]
+		sc.Faults = []h.Fault{{Site: site, Bar: r.Intn(len(sc.Bars)), K: r.Range(1, 5)}}
+		if site == h.FaultOutWrite {
+			sc.Faults[0].Bar = 0
+		}
+	}
+	// a proxy requested after the container is done is nil
+	if len(sc.Initial) > 0 && r.Bool(0.5) {
+		sc.Post = append(sc.Post, h.Op{K: h.OpProxy, Bar: sc.Initial[r.Intn(len(sc.Initial))], Stream: &h.StreamSpec{Writer: r.Bool(0.5), Len: 4, BufSizes: []int{4}}})
+	}
 	return sc
 }
 
@@ -164,6 +176,10 @@ func judgeC02(hi *Hist) []*Violation {
 		case h.OpWrite:
 			if op.RS != "ErrDone" || op.R != 0 {
 				out = append(out, viol("C02", "late-write", "Write invoked after Wait returned gave (%d, %q), want (0, ErrDone)", op.R, op.RS))
+			}
+		case h.OpProxy:
+			if op.RS != "nil" {
+				out = append(out, viol("C02", "late-proxy", "ProxyReader/ProxyWriter requested after Wait returned is not nil"))
 			}
 		}
 	}
